@@ -121,10 +121,13 @@ def r_delivery(ctx):
         if ev == ['WitnessOutsideMain']:
             classes['outside'] = (len(p.conds) == 1)
         elif ev == ['WitnessReused']:
-            classes['reused'] = any(l == 'Occupied' for w, l in p.conds)
+            # accepted idioms: match entry(name) { Occupied => Err } or if contains_key(name) { return Err }
+            classes['reused'] = any(l == 'Occupied' or (is_call(w, 'contains_key') and l != '0') for w, l in p.conds)
         elif rk == 'ok':
             ins = [e for e in event_calls(p) if e[1].endswith('VacantEntry::<K, V>::insert') or e[1].endswith('::insert')]
-            classes['fresh'] = any(l == 'Vacant' for w, l in p.conds) and len(ins) == 1 and ins[0][2][1] == ('param', 2, 'ty')
+            tyv = ('param', 2, iw.names.get(3, 'ty'))
+            fresh_test = any(l == 'Vacant' or (is_call(w, 'contains_key') and l == '0') for w, l in p.conds)
+            classes['fresh'] = fresh_test and len(ins) == 1 and ins[0][2][-1] == tyv
         else:
             classes['other:' + cs] = False
     for k in ('outside', 'reused', 'fresh'):
